@@ -133,6 +133,18 @@ CHECKS.update({
              "is the property's own"),
 })
 
+CHECKS.update({
+    "C18": dict(
+        category="model_checking",
+        technique=CORE + " with hostile statements; " + ASSIGN + " with nested snapshot() calls",
+        text="programs whose tests raise, compare incomparable values, use a second operation, re-evaluate changed "
+             "arguments or fail asserts (MC_Core with HostileOK) and (term, value) pairs with nested snapshot calls at "
+             "every position of lists / dicts (MC_Assign shape `inner`) are enumerated by TLC and executed in-process and "
+             "as real sessions for every approved set: collecting, reporting and applying the changes must finish "
+             "without exception / INTERNALERROR and without overlapping edits",
+        design_ref="DESIGN.md section 5 C18"),
+})
+
 NOT_YET = {
 }
 
